@@ -131,3 +131,9 @@ Example C12_source_example :
   /\ ImpGen.imp_sequtil_CanonicalSubsequences (bs "ACGTT") (-1) = GoSem.Panics
   /\ ImpProofs.all_bytes (bs "aCgN").
 Proof. vm_compute. repeat split; repeat constructor. Qed.
+
+(* ReverseComplementString (a strings.Builder filled byte by byte) is the model's. *)
+Theorem C12_reverse_complement_string_is_source : forall s, ImpProofs.all_bytes s ->
+  ImpGen.imp_sequtil_ReverseComplementString s = ImpProofs.of_outcome (rc_string s).
+Proof. exact ImpProofs.imp_ReverseComplementString. Qed.
+Print Assumptions C12_reverse_complement_string_is_source.
